@@ -33,10 +33,18 @@ Concat(pages) == IF pages = <<>> THEN <<>> ELSE Head(pages) \o Concat(Tail(pages
 
 ById(col, i) == CHOOSE r \in AsSet(col) : r.id = i
 
+\* the filter: none, a leaf on x, a group around the leaf, or a group without members at the root -
+\* an empty and allows everything, an empty or (or a list under an operator that is none) nothing
+FltWrap(e) == IF "wrap" \in DOMAIN e.flt THEN e.flt.wrap ELSE ""
+FltPass(e, r) ==
+    CASE FltWrap(e) = "and0" -> TRUE
+      [] FltWrap(e) \in {"or0", "nope0"} -> FALSE
+      [] OTHER -> ~e.flt.on \/ Leaf(e.cls, e.flt.op, r.x, e.flt.cv)
+
 Matching(e) ==
     { r \in AsSet(e.col) :
         /\ (e.ids = <<>> \/ r.id \in AsSet(e.ids))
-        /\ (~e.flt.on \/ Leaf(e.cls, e.flt.op, r.x, e.flt.cv)) }
+        /\ FltPass(e, r) }
 
 SortedUnder(e, p, nilmode) ==
     \A i \in 1..(Len(p) - 1) : Cmp(ById(e.col, p[i]), ById(e.col, p[i + 1]), e.rules, nilmode) <= 0
